@@ -4,7 +4,8 @@ Explicit-state BFS over the real shell: a state is reached by replaying its shor
 process; states are deduplicated by the reference model's state (name -> value x exported?, cwd, previous dir); every
 operation is executed from every distinct state (quick: to depth 3; thorough: to the fixpoint of the finite state
 space). After each operation the real shell is probed: a helper records its argv ("$A|$B|$PWD" expansions), its
-environment (what children see), its cwd, and a relative redirection must land in the model's cwd; the status of a
+environment (what children see), its cwd, a relative redirection must land in the model's cwd, and a final `cd -` must
+lead to the model's previous directory (so that state the shell only remembers is observed too); the status of a
 failed cd must be non-zero."""
 import os
 
@@ -120,16 +121,19 @@ def run_history(hist):
         root = make_tree(d)
         texts = [OPS[i][0].replace('ROOT', root) for i in hist]
         last = texts[-1] if texts else 'vh-argv NOOP'
-        line = ' ; '.join(texts[:-1] + [last, 'vh-mark S 0 $?', 'vh-argv P "$A|$B|$PWD"', 'vh-io r > relfile.out'])
+        line = ' ; '.join(texts[:-1] + [last, 'vh-mark S 0 $?', 'vh-argv P "$A|$B|$PWD"', 'vh-io r > relfile.out', 'cd -', 'vh-argv Q "$PWD"'])
         env = {'HOME': root, 'PWD': root}
         r = common.run_cicada(['-c', line], d, cwd=root, env=env, stdin=b'', timeout=20)
-        obs = {'timed_out': r.timed_out, 'status_last': None, 'probe': None, 'prefix': None, 'rel': None, 'err': r.err[-200:].decode('utf-8', 'replace')}
+        obs = {'timed_out': r.timed_out, 'status_last': None, 'probe': None, 'prefix': None, 'rel': None, 'back': None, 'err': r.err[-200:].decode('utf-8', 'replace')}
         for x in r.records:
             if x.get('k') == 'mark' and x['argv'][0] == 'S':
                 obs['status_last'] = x['argv'][2]
             if x.get('k') == 'argv' and x['argv'][:1] == ['P']:
                 obs['probe'] = {'text': x['argv'][1] if len(x['argv']) > 1 else None, 'cwd': x['cwd'].replace(root, 'ROOT'),
                                 'env': {k: x['env'].get(k) for k in ('A', 'B', 'PWD')}, 'dups': [k for k in x.get('env_dups', []) if k in ('A', 'B', 'PWD')]}
+            if x.get('k') == 'argv' and x['argv'][:1] == ['Q']:
+                # where `cd -` leads from here: makes the shell's remembered previous directory observable
+                obs['back'] = {'cwd': x['cwd'].replace(root, 'ROOT'), 'text': (x['argv'][1] if len(x['argv']) > 1 else '').replace(root, 'ROOT')}
             if x.get('k') == 'argv' and x['argv'][:1] == ['PREFIX']:
                 obs['prefix'] = {k: x['env'].get(k) for k in ('A', 'B')}
         for base in ('ROOT', 'ROOT/d1', 'ROOT/d1/d2'):
@@ -197,6 +201,9 @@ def run(rep, tier):
                 return 'nonzero-status'
             if not ok and obs['status_last'] == '0':
                 return 'failed-cd-zero-status'
+            back = m2.prev if m2.prev else m2.cwd
+            if obs['back'] is None or obs['back']['cwd'] != back or obs['back']['text'] != (back if m2.prev else m2.pwd):
+                return 'previous-directory'
             if prefix is not None:
                 want = {n: (m2.vars[n][0] if n in m2.vars and m2.vars[n][1] else None) for n in ('A', 'B')}
                 want[prefix[0]] = prefix[1]
@@ -227,7 +234,7 @@ def run(rep, tier):
                 rep.outcome('deviation:' + dev)
                 st = 'exported' if (op[1] in ('assign', 'prefix', 'read', 'unset') and any(v[1] for v in m.vars.values())) else 'plain'
                 rep.violation('%s:%s:%s' % (dev, op[1], st), {'line': line, 'history': [OPS[i][0] for i in hist]}, exp,
-                              {k: obs[k] for k in ('probe', 'prefix', 'rel', 'status_last', 'err')}, repro='cd ROOT && cicada -c %s' % common.shquote(line))
+                              {k: obs[k] for k in ('probe', 'prefix', 'rel', 'back', 'status_last', 'err')}, repro='cd ROOT && cicada -c %s' % common.shquote(line))
         frontier = nxt
         rep.bounds.append({'layer': 'BFS depth %d' % depth, 'transitions': len(jobs), 'new_states': len(nxt), 'complete': True})
     rep.states = len(seen)
